@@ -42,7 +42,7 @@ func within(d time.Duration, f func()) bool {
 	select {
 	case <-done:
 		return true
-	case <-time.After(d):
+	case <-time.After(vkit.Patient(d)):
 		return false
 	}
 }
@@ -445,7 +445,7 @@ func TestVerif_Probes(t *testing.T) {
 		}
 		select {
 		case <-completed:
-		case <-time.After(10 * time.Second):
+		case <-time.After(vkit.Patient(10 * time.Second)):
 			r.Violation("observable-never-completes", variant, map[string]any{"message": fmt.Sprintf("variant %d: Observe never called complete after its context ended", variant)})
 		}
 		if !within(10*time.Second, func() {
@@ -743,7 +743,7 @@ func deriveProbe(t *testing.T, variant int) (key, msg string) {
 	}
 	select {
 	case <-stopped:
-	case <-time.After(20 * time.Second):
+	case <-time.After(vkit.Patient(20 * time.Second)):
 		return "derive/stop-stuck", fmt.Sprintf("variant %d: stopping the hive did not finish (transform calls so far: %d)", variant, calls.Load())
 	}
 	if !within(10*time.Second, func() {
